@@ -87,6 +87,8 @@ type Engine struct {
 	debugModel map[string]uint64
 	syncMaps  map[*Cell]*MapObj
 	hashers   map[*Cell]*hashTranscript
+	opaquePubKeys bool
+	noops     map[string]bool
 	light     *Solver
 }
 
